@@ -4,7 +4,8 @@ here=$(cd "$(dirname "$0")" && pwd); eng="$here/../vsymex/vsymex"; tmp=$(mktemp 
 for f in "$here"/t*.c; do
   n=$((n+1)); b=$(basename "$f" .c); exp=$(sed -n 's,^// EXPECT: ,,p' "$f" | head -1)
   clang-14 -O1 -g -I"$here" -emit-llvm -c "$f" -o "$tmp/$b.bc" 2>"$tmp/$b.err" || { echo "FAIL $b: does not compile"; cat "$tmp/$b.err"; fail=1; continue; }
-  out=$("$eng" "$tmp/$b.bc" --time-limit 120 --path-limit 2000000 2>&1 | grep '^VSYMEX-' | head -1)
+  flags=$(sed -n 's,^// FLAGS: ,,p' "$f" | head -1)
+  out=$("$eng" "$tmp/$b.bc" --time-limit 120 --path-limit 2000000 $flags 2>&1 | grep '^VSYMEX-' | head -1)
   case "$exp" in
     ok) case "$out" in VSYMEX-OK*) ;; *) echo "FAIL $b: expected ok, got: $out"; fail=1;; esac;;
     violation\ *) k=${exp#violation }; case "$out" in VSYMEX-VIOLATION\ kind=$k*) ;; *) echo "FAIL $b: expected violation kind=$k, got: $out"; fail=1;; esac;;
